@@ -1349,59 +1349,128 @@ def r6_status(program, folder, rep):
     inst = qual(fn)
     keys = set(vcpu)
     bad = []
-    # simulate the key-set edits symbolically from the AST
+    # the dictionary handed to ProcessorStatus(**<it>), whatever it is called
+    svar = None
+    for c_ in calls_in(fn, "ProcessorStatus"):
+        for k_ in c_.keywords:
+            if k_.arg is None and isinstance(k_.value, ast.Name):
+                svar = k_.value.id
+    if svar is None:
+        raise AnalysisError("get_processor_status: ProcessorStatus(**<dict>) "
+                            "not found")
+
+    def is_var(e):
+        return isinstance(e, ast.Name) and e.id == svar
+
+    def names_of(fmt_expr, loopvar, values):
+        """The strings a formatted name takes: '<..>{}'.format(i),
+        '<..>%d' % i, f'<..>{i}' for i over ``values``."""
+        e = fmt_expr
+        if isinstance(e, ast.Constant) and isinstance(e.value, str):
+            return [e.value]
+        if isinstance(e, ast.Call) and isinstance(e.func, ast.Attribute) and \
+                e.func.attr == "format" and isinstance(
+                    e.func.value, ast.Constant) and len(e.args) == 1 and \
+                isinstance(e.args[0], ast.Name) and e.args[0].id == loopvar:
+            return [e.func.value.value.format(v) for v in values]
+        if isinstance(e, ast.BinOp) and isinstance(e.op, ast.Mod) and \
+                isinstance(e.left, ast.Constant) and isinstance(
+                    e.right, ast.Name) and e.right.id == loopvar:
+            return [e.left.value % v for v in values]
+        if isinstance(e, ast.JoinedStr) and all(
+                isinstance(x, ast.Constant) or (
+                    isinstance(x, ast.FormattedValue) and
+                    isinstance(x.value, ast.Name) and
+                    x.value.id == loopvar and x.format_spec is None and
+                    x.conversion == -1) for x in e.values):
+            return ["".join(x.value if isinstance(x, ast.Constant) else
+                            str(v) for x in e.values) for v in values]
+        raise AnalysisError("get_processor_status: a field name is built in "
+                            "a form that is not analysed (%s)" % unparse(e))
+
+    def pop_key(k):
+        if k not in keys:
+            bad.append(k)
+        keys.discard(k)
+
+    def pops_in(expr, loopvar=None, values=()):
+        for c in ast.walk(expr):
+            if isinstance(c, ast.Call) and isinstance(
+                    c.func, ast.Attribute) and c.func.attr == "pop" and \
+                    is_var(c.func.value) and c.args:
+                for k in names_of(c.args[0], loopvar, values):
+                    pop_key(k)
+            elif isinstance(c, ast.Subscript) and is_var(c.value) and \
+                    isinstance(c.ctx, ast.Load):
+                if isinstance(c.slice, ast.Constant):
+                    if c.slice.value not in keys:
+                        bad.append(c.slice.value)
+                else:
+                    raise AnalysisError("get_processor_status: the status "
+                                        "dictionary is read under a computed "
+                                        "key")
+    started = False
     for st in fn.body:
-        for n in ast.walk(st):
-            if isinstance(n, ast.Call) and call_name(n)[0] == "pop" and \
-                    chain(call_name(n)[1]) == "state":
-                pass
-    fl = Flow(fn)
-    # pops with literal / formatted names
-    for st in fn.body:
-        if isinstance(st, ast.Assign) and isinstance(st.targets[0],
-                                                     ast.Subscript) and \
-                chain(st.targets[0].value) == "state":
-            newk = st.targets[0].slice
+        mentions = any(is_var(x) for x in ast.walk(st))
+        if not mentions:
+            continue
+        if not started:
+            # the statement that creates the dictionary
+            started = True
+            if isinstance(st, ast.Assign) and is_var(st.targets[0]):
+                continue
+        if isinstance(st, ast.Assign) and len(st.targets) == 1 and \
+                isinstance(st.targets[0], ast.Subscript) and \
+                is_var(st.targets[0].value) and \
+                isinstance(st.targets[0].slice, ast.Constant):
             v = st.value
-            if isinstance(v, ast.ListComp):
-                call = v.elt
-                rng = folder.eval(v.generators[0].iter, {}, fn._module)
-                fmt = call.args[0].func.value.value
-                for i in rng:
-                    k = fmt.format(i)
-                    if k not in keys:
-                        bad.append(k)
-                    keys.discard(k)
-                keys.add(newk.value)
-            elif isinstance(newk, ast.Constant):
-                # state['x'] = f(state['x']) or computed from popped names
-                for c in ast.walk(v):
-                    if isinstance(c, ast.Subscript) and \
-                            chain(c.value) == "state" and \
-                            isinstance(c.slice, ast.Constant):
-                        if c.slice.value not in keys:
-                            bad.append(c.slice.value)
-                keys.add(newk.value)
-        elif isinstance(st, ast.Assign) and isinstance(st.value, ast.Call) \
-                and call_name(st.value)[0] == "pop" and \
-                chain(call_name(st.value)[1]) == "state":
-            k = st.value.args[0].value
-            if k not in keys:
-                bad.append(k)
-            keys.discard(k)
-        elif isinstance(st, ast.Expr) and isinstance(st.value, ast.Call) and \
-                call_name(st.value)[0] == "pop":
-            k = st.value.args[0].value
-            if k not in keys:
-                bad.append(k)
-            keys.discard(k)
-        elif isinstance(st, ast.For):
-            pairs = folder.eval(st.iter, {}, fn._module)
-            for new, old in pairs:
-                if old not in keys:
-                    bad.append(old)
-                keys.discard(old)
-                keys.add(new)
+            if isinstance(v, (ast.ListComp, ast.GeneratorExp)) and \
+                    len(v.generators) == 1 and isinstance(
+                        v.generators[0].target, ast.Name):
+                rng = list(folder.eval(v.generators[0].iter, {}, fn._module))
+                pops_in(v.elt, v.generators[0].target.id, rng)
+            else:
+                pops_in(v)
+            keys.add(st.targets[0].slice.value)
+        elif isinstance(st, ast.Assign) and not any(
+                is_var(x) for t_ in st.targets for x in ast.walk(t_)):
+            pops_in(st.value)
+        elif isinstance(st, ast.Expr):
+            pops_in(st.value)
+        elif isinstance(st, ast.Delete) and all(
+                isinstance(t_, ast.Subscript) and is_var(t_.value) and
+                isinstance(t_.slice, ast.Constant) for t_ in st.targets):
+            for t_ in st.targets:
+                pop_key(t_.slice.value)
+        elif isinstance(st, ast.For) and isinstance(
+                st.target, ast.Tuple) and len(st.body) == 1 and \
+                isinstance(st.body[0], ast.Assign) and \
+                isinstance(st.body[0].targets[0], ast.Subscript) and \
+                is_var(st.body[0].targets[0].value) and \
+                isinstance(st.body[0].targets[0].slice, ast.Name) and \
+                isinstance(st.body[0].value, ast.Call) and \
+                isinstance(st.body[0].value.func, ast.Attribute) and \
+                st.body[0].value.func.attr == "pop" and \
+                is_var(st.body[0].value.func.value) and \
+                len(st.body[0].value.args) == 1 and \
+                isinstance(st.body[0].value.args[0], ast.Name):
+            # for <a>, <b> in <literal pairs>: d[<one>] = d.pop(<other>)
+            tnames = [e_.id for e_ in st.target.elts
+                      if isinstance(e_, ast.Name)]
+            newn = st.body[0].targets[0].slice.id
+            oldn = st.body[0].value.args[0].id
+            if len(tnames) != 2 or {newn, oldn} != set(tnames):
+                raise AnalysisError("get_processor_status: rename loop")
+            for pair in folder.eval(st.iter, {}, fn._module):
+                d_ = dict(zip(tnames, pair))
+                pop_key(d_[oldn])
+                keys.add(d_[newn])
+        elif isinstance(st, ast.Return):
+            pass
+        else:
+            raise AnalysisError("get_processor_status: the status dictionary "
+                                "is edited by a statement these rules do not "
+                                "read (line %d)" % st.lineno)
     ps_cls = program.get(MC + ":ProcessorStatus")
     fields = folder.eval(ps_cls.bases[0].args[1], {}, fn._module).split()
     rep.check(not bad, "C14-R6", inst, "every per-core status field used "
